@@ -117,18 +117,41 @@ def rule_x2(F):
             if n.get("op") == "+=" and l is not None:
                 out.add(l)
         return out
+    rld = hir.LocalDefs(rb.hir)
+
+    def is_run_result(e, depth=0):
+        """e is the result of test.run(..), directly or through a let-bound local"""
+        e = hir.peel_refs(hir.strip(e))
+        if any(x["m"] == "run" for x in hir.nodes(e, "mcall")) and e.get("k") in ("mcall",):
+            return e["m"] == "run"
+        if e.get("k") == "path" and hir.res_local(e) is not None and depth < 3:
+            d = rld.get(hir.res_local(e))
+            if d and d[1] is not None and not (d[2] and d[2][0] == "arm"):
+                return is_run_result(d[1], depth + 1)
+        return False
+
+    def cond_polarity(c):
+        """'ok' if the condition is true exactly when the test passed, 'fail' if exactly when it did not, else None"""
+        c = hir.strip(c)
+        if c.get("k") == "bin" and c.get("op") in ("==", "!="):
+            for x, y in ((c["a"], c["b"]), (c["b"], c["a"])):
+                if is_run_result(x) and "Ok" in str(hir.result_desc(y)):
+                    return "ok" if c["op"] == "==" else "fail"
+            return None
+        if c.get("k") == "mcall" and c["m"] in ("is_ok", "is_err") and is_run_result(c["recv"]):
+            return "ok" if c["m"] == "is_ok" else "fail"
+        if c.get("k") == "un" and c.get("op") == "!":
+            p_ = cond_polarity(c["a"])
+            return {"ok": "fail", "fail": "ok"}.get(p_)
+        return None
     for iff in hir.nodes(h, "if"):
-        c = iff["cond"]
-        if not any(x["m"] == "run" for x in hir.nodes(c, "mcall")):
+        pol = cond_polarity(iff["cond"])
+        if pol is None:
             continue
-        op = c.get("op")
-        if op not in ("==", "!="):
-            continue
-        okside = iff["then"] if op == "==" else iff.get("else")
-        failside = iff.get("else") if op == "==" else iff["then"]
-        sides_ok = any("Ok" in str(hir.result_desc(x)) for x in (c.get("a"), c.get("b")) if x)
+        okside = iff["then"] if pol == "ok" else iff.get("else")
+        failside = iff.get("else") if pol == "ok" else iff["then"]
         fail_counters = incs(failside) - incs(okside)
-        cnt_ok = bool(sides_ok and fail_counters)
+        cnt_ok = bool(fail_counters)
     # final: Ok exactly when the failure counter is zero (if / match form)
     final = hir.strip(h).get("expr")
     ok = False
@@ -158,6 +181,19 @@ def rule_x2(F):
         rest = [rw for rw in rows if rw["alts"] == ["_"] and not rw.get("guard")]
         ok = (len(rows) == 2 and len(zero) == 1 and len(rest) == 1 and rows[0] is zero[0]
               and "Ok" in str(zero[0]["result"]) and "Err" in str(rest[0]["result"]))
+    if not ok and final is not None:
+        # fold form: the returned local starts as Ok(()) and every iteration does `acc = acc.and(<result of this test>)`
+        acc = hir.res_local(hir.peel_refs(hir.strip(final)))
+        d = rld.get(acc) if acc is not None else None
+        if d and d[1] is not None and "Ok" in str(hir.result_desc(d[1])):
+            assigns = [a_ for a_ in hir.nodes(h, "assign") if hir.res_local(hir.peel_refs(hir.strip(a_["lhs"]))) == acc]
+            in_loop = [a_ for lp in hir.nodes(h, "loop") for a_ in hir.nodes(lp, "assign") if a_ in assigns]
+
+            def folds(a_):
+                rhs = hir.strip(a_["rhs"])
+                return (rhs.get("k") == "mcall" and rhs["m"] == "and" and hir.res_local(hir.peel_refs(hir.strip(rhs["recv"]))) == acc
+                        and rhs["args"] and is_run_result(rhs["args"][0]))
+            ok = bool(assigns) and len(in_loop) == len(assigns) and all(folds(a_) for a_ in assigns)
     r.inst("aggregate result", {"ok": ok, "failure_counters": len(fail_counters)})
     if not ok:
         r.bad(rb.path, "aggregate", relfile(rb.file), rb.line, "run_tests must return Ok exactly when failures == 0")
@@ -245,7 +281,16 @@ def rule_x3(F):
         return r
     ms = [c["m"] for c in hir.nodes(gb.hir["value"], "mcall")]
     st = gb.hir["value"].get("stmts") or []
-    sort_i = [i for i, s in enumerate(st) if any(c["m"] in ("sort", "sort_unstable") and names(c["recv"]) == {"tests"} for c in hir.nodes(s, "mcall"))]
+    # the collection that is sorted is the one the function returns (whatever it is called)
+    tail = hir.strip(gb.hir["value"]).get("expr")
+    def chain_root(e):
+        e = hir.peel_refs(hir.strip(e or {}))
+        while e.get("k") == "mcall":
+            e = hir.peel_refs(hir.strip(e["recv"]))
+        return hir.res_local(e) if e.get("k") == "path" else None
+    ret_local = chain_root(tail)
+    sort_i = [i for i, s in enumerate(st) if any(c["m"] in ("sort", "sort_unstable") and ret_local is not None
+                                                and hir.res_local(hir.peel_refs(hir.strip(c["recv"]))) == ret_local for c in hir.nodes(s, "mcall"))]
     r.inst("sorted", {"sort_stmt": sort_i})
     if not sort_i:
         r.bad(gb.path, "sorted", relfile(gb.file), gb.line, "the discovered test names are not sorted: the order of test runs would depend on HashMap iteration")
